@@ -201,20 +201,22 @@ impl Multipatch {
         self.patches.iter().map(|patch| patch.points().len()).sum()
     }
 
-    pub(crate) fn size_of_record(num_points: i32, num_parts: i32, is_m_used: bool) -> usize {
-        let mut size = 0usize;
-        size += 4 * size_of::<f64>(); // BBOX
-        size += size_of::<i32>(); // num parts
-        size += size_of::<i32>(); // num points
-        size += size_of::<i32>() * num_parts as usize; // parts
-        size += size_of::<i32>() * num_parts as usize; // parts type
-        size += size_of::<Point>() * num_points as usize;
-        size += 2 * size_of::<f64>(); // mandatory Z Range
-        size += size_of::<f64>() * num_points as usize; // mandatory Z
+    pub(crate) fn size_of_record(num_points: i32, num_parts: i32, is_m_used: bool) -> i64 {
+        let num_points = i64::from(num_points);
+        let num_parts = i64::from(num_parts);
+        let mut size = 0i64;
+        size += 4 * size_of::<f64>() as i64; // BBOX
+        size += size_of::<i32>() as i64; // num parts
+        size += size_of::<i32>() as i64; // num points
+        size += size_of::<i32>() as i64 * num_parts; // parts
+        size += size_of::<i32>() as i64 * num_parts; // parts type
+        size += size_of::<Point>() as i64 * num_points;
+        size += 2 * size_of::<f64>() as i64; // mandatory Z Range
+        size += size_of::<f64>() as i64 * num_points; // mandatory Z
 
         if is_m_used {
-            size += 2 * size_of::<f64>(); // Optional M range
-            size += size_of::<f64>() * num_points as usize; // Optional M
+            size += 2 * size_of::<f64>() as i64; // Optional M range
+            size += size_of::<f64>() as i64 * num_points; // Optional M
         }
         size
     }
@@ -236,10 +238,10 @@ impl ConcreteReadableShape for Multipatch {
     fn read_shape_content<T: Read>(source: &mut T, record_size: i32) -> Result<Self, Error> {
         let reader = MultiPartShapeReader::<PointZ, T>::new(source)?;
 
-        let record_size_with_m =
-            Self::size_of_record(reader.num_points, reader.num_parts, true) as i32;
+        let record_size = i64::from(record_size);
+        let record_size_with_m = Self::size_of_record(reader.num_points, reader.num_parts, true);
         let record_size_without_m =
-            Self::size_of_record(reader.num_points, reader.num_parts, false) as i32;
+            Self::size_of_record(reader.num_points, reader.num_parts, false);
 
         if (record_size != record_size_with_m) & (record_size != record_size_without_m) {
             Err(Error::InvalidShapeRecordSize)
